@@ -205,7 +205,8 @@ def near_tie(cs, o):
     return None
 
 def is_dyadic(cs):
-    return cs.tag == "dyadic"
+    # exact data (powers of two / small dyadics): never discarded as a near tie
+    return cs.tag in ("dyadic", "noprogress")
 
 # ------------------------------------------------------------------ run
 def run(ctx):
@@ -263,6 +264,10 @@ def run(ctx):
     ctx.coverage["discarded_near_ties"] = ties
     if real:
         cs, o = owners[real[0]]
+        # the model is PROVED to satisfy the invariants; an input on which the implementation leaves the model's trajectory is a concrete failing input
+        ctx.violation("PANOC:run-differs-from-verified-model", "whole run of PANOCSolver differs from the verified model Panoc.panoc (first of %d disagreeing runs; status=%s iterations=%s)" % (len(real), o.get("status"), o.get("iterations")),
+                      {"driver": "drv_solve", "input": cs.rq.to_input(), "request": cs.rq.describe(), "impl_output": {k: v for k, v in o.items() if k != "records"},
+                       "model_dump": getattr(ctx, "last_dump", "")[-3000:], "why": "model (Coq, binary64) and implementation disagree on this run"})
         ctx.broke("correspondence", "Panoc.v (whole run) vs PANOCSolver<ScriptedDirection> in drv_solve",
                   json.dumps({"n_disagreements": len(real), "first_disagreeing_request": cs.rq.describe(), "driver_input": cs.rq.to_input(),
                               "impl": {k: v for k, v in o.items() if k != "records"}, "impl_records": len(o["records"]),
